@@ -14,6 +14,23 @@ Lemma comm_p : comm ProtocolError. Proof. right; left; reflexivity. Qed.
 Lemma comm_x : comm TransmissionError. Proof. right; right; reflexivity. Qed.
 #[export] Hint Resolve comm_t comm_p comm_x : core.
 
+(* fault scripts in which every faulty round is followed by at least two fault free rounds: each lost or
+   corrupted frame is the only fault of its protocol step (faulty round, attention round, retransmission) *)
+Definition clean (ff : fate * fate) : bool := match ff with (FD, FD) => true | _ => false end.
+Fixpoint Sparse (s : list (fate * fate)) : Prop :=
+  match s with
+  | [] => True
+  | ff :: r => if clean ff then Sparse r
+               else match r with
+                    | f1 :: f2 :: r2 => clean f1 = true /\ clean f2 = true /\ Sparse r2
+                    | _ => False
+                    end
+  end.
+Lemma Sparse_tl s : Sparse s -> hd (FD, FD) s = (FD, FD) -> Sparse (tl s).
+Proof. destruct s as [|ff r]; [auto|]. cbn. intros H ->. exact H. Qed.
+Lemma clean_eq ff : clean ff = true -> ff = (FD, FD).
+Proof. destruct ff as [[] []]; cbn; congruence. Qed.
+
 Section Srr.
 Variables (ic : icfg) (tc : tcfg).
 Hypothesis H106 : ic_106 ic = tc_106 tc.
@@ -267,6 +284,81 @@ Proof.
   - exists w1. auto.
 Qed.
 
+(* ---- recovery: forward behaviour on fault free rounds ---- *)
+Lemma req_atn_dd n rwt deadline w : InS (w_t w) -> hd (FD, FD) (w_script w) = (FD, FD) ->
+  0 < Z.min rwt (deadline - w_now w) ->
+  exists w', req_atn (S n) ic tc rwt deadline w = (Ok tt, w') /\ w_t w' = awake (w_t w) /\
+             w_script w' = tl (w_script w) /\ w_now w' = w_now w.
+Proof.
+  intros Hin Hhd Ht. cbn [req_atn]. replace (Z.min rwt (deadline - w_now w) <=? 0) with false by lia.
+  destruct (S_step_atn _ Hin) as (Hs & Hin' & Hk).
+  pose proof (srr1_step atn_req (Z.min rwt (deadline - w_now w)) w _ _ atn_req_ok (atn_res_ok tc Hmt) Hs) as Hso.
+  fold atn_req. destruct (srr1 ic tc (PDepReq atn_req) (Z.min rwt (deadline - w_now w)) w) as [x w1].
+  inversion Hso as [w2 E1 E2 E3 E4 E5|w2 E1 E2 E3 E4 E5|w2 E1 E2 E3 E4 E5|w2 E1 E2 E3 E4 E5]; subst x w2.
+  - exfalso. apply E4. rewrite Hhd. reflexivity.
+  - rewrite Hhd in E4. discriminate.
+  - rewrite Hhd in E4. discriminate.
+  - cbn [atn_res fmt]. change (F_ATN =? F_RTOX) with false. change (F_ATN =? F_ATN) with true. cbn.
+    exists w1. auto.
+Qed.
+
+Lemma req_nak_dd n p rwt deadline w : w_t w = t1 -> 0 <= p <= 3 -> hd (FD, FD) (w_script w) = (FD, FD) ->
+  0 < Z.min rwt (deadline - w_now w) -> (fmt r = F_INF \/ fmt r = F_MORE \/ fmt r = F_ACK) ->
+  exists w', req_nak (S n) ic tc p rwt deadline w = (Ok (PDepRes r), w') /\ w_t w' = t1 /\
+             w_script w' = tl (w_script w) /\ w_now w' = w_now w.
+Proof.
+  intros Hw Hp Hhd Ht Hfr. cbn [req_nak]. replace (Z.min rwt (deadline - w_now w) <=? 0) with false by lia.
+  pose proof (S_step_nak p) as Hs. rewrite <- Hw in Hs at 1.
+  pose proof (srr1_step (nak_req p) (Z.min rwt (deadline - w_now w)) w _ _ (nak_req_ok p Hp) (proj1 (proj2 t1_facts)) Hs) as Hso.
+  fold (nak_req p). destruct (srr1 ic tc (PDepReq (nak_req p)) (Z.min rwt (deadline - w_now w)) w) as [x w1].
+  inversion Hso as [w2 E1 E2 E3 E4 E5|w2 E1 E2 E3 E4 E5|w2 E1 E2 E3 E4 E5|w2 E1 E2 E3 E4 E5]; subst x w2.
+  - exfalso. apply E4. rewrite Hhd. reflexivity.
+  - rewrite Hhd in E4. discriminate.
+  - rewrite Hhd in E4. discriminate.
+  - replace (fmt r =? F_RTOX) with false by (unfold F_INF, F_MORE, F_ACK, F_RTOX in *; lia).
+    replace ((fmt r =? F_INF) || (fmt r =? F_MORE) || (fmt r =? F_ACK)) with true by lia. cbn [negb].
+    exists w1. auto.
+Qed.
+
+(* a single fault, followed by two fault free rounds, is recovered: the call returns the response *)
+Lemma srr_loop_sparse fuel p deadline w : w_t w = t0 \/ w_t w = awake t0 -> 0 <= p <= 3 -> Sparse (w_script w) ->
+  2 <= deadline - w_now w -> (2 <= fuel)%nat -> (fmt r = F_INF \/ fmt r = F_MORE \/ fmt r = F_ACK) ->
+  exists w', srr_loop fuel ic tc p (PDepReq d) 1 deadline w = (Ok (PDepRes r), w') /\ w_t w' = t1 /\ Sparse (w_script w').
+Proof.
+  intros Hw0 Hp Hsp Hdl Hfuel Hfr.
+  assert (Hin : InS (w_t w)) by (destruct Hw0 as [-> | ->]; [left | right; left]; reflexivity).
+  destruct (w_script w) as [|ff rest] eqn:Esc.
+  { destruct (srr_loop_nofault fuel p 1 deadline w Hin) as (w' & E & A & B & C); [rewrite Esc; reflexivity | lia | lia|].
+    exists w'. rewrite B, Esc. cbn. auto. }
+  cbn [Sparse] in Hsp. destruct (clean ff) eqn:Ec.
+  { destruct (srr_loop_nofault fuel p 1 deadline w Hin) as (w' & E & A & B & C); [rewrite Esc; cbn; apply clean_eq, Ec | lia | lia|].
+    exists w'. rewrite B, Esc. cbn. auto. }
+  destruct rest as [|f1 [|f2 rest2]]; try contradiction. destruct Hsp as (C1 & C2 & Hsp).
+  apply clean_eq in C1. apply clean_eq in C2. subst f1 f2.
+  destruct fuel as [|[|f]]; try lia. cbn [srr_loop].
+  replace (Z.min 1 (deadline - w_now w) <=? 0) with false by lia.
+  pose proof (S_step_req _ Hin) as Hs.
+  pose proof (srr1_step d (Z.min 1 (deadline - w_now w)) w _ _ Hreq (proj1 (proj2 t1_facts)) Hs) as Hso.
+  destruct (srr1 ic tc (PDepReq d) (Z.min 1 (deadline - w_now w)) w) as [x w1].
+  assert (Hatn : forall wa, InS (w_t wa) -> w_script wa = (FD, FD) :: (FD, FD) :: rest2 -> w_now wa = w_now w + Z.min 1 (deadline - w_now w) ->
+            exists w', match req_atn 2 ic tc 1 deadline wa with
+                       | (Ok _, w2) => srr_loop (S f) ic tc p (PDepReq d) 1 deadline w2
+                       | (Err e, w2) => (Err e, w2) | (Crash c, w2) => (Crash c, w2) | (Hang, w2) => (Hang, w2) end
+                       = (Ok (PDepRes r), w') /\ w_t w' = t1 /\ Sparse (w_script w')).
+  { intros wa Hina Hsa Hna.
+    destruct (req_atn_dd 1 1 deadline wa Hina) as (w2 & E & A & B & C); [rewrite Hsa; reflexivity | lia|].
+    rewrite E.
+    assert (Hin2 : InS (w_t w2)) by (rewrite A; apply S_step_atn, Hina).
+    destruct (srr_loop_nofault (S f) p 1 deadline w2 Hin2) as (w3 & E3 & A3 & B3 & C3); [rewrite B, Hsa; reflexivity | lia | lia|].
+    exists w3. rewrite E3, B3, B, Hsa. cbn. auto. }
+  inversion Hso as [w2 E1 E2 E3 E4 E5|w2 E1 E2 E3 E4 E5|w2 E1 E2 E3 E4 E5|w2 E1 E2 E3 E4 E5]; subst x w2.
+  - apply Hatn; [rewrite E1; exact Hin | rewrite E2, Esc; reflexivity | exact E3].
+  - apply Hatn; [rewrite E1; right; right; reflexivity | rewrite E2, Esc; reflexivity | exact E3].
+  - destruct (req_nak_dd 1 p 1 deadline w1 E1 Hp) as (w2 & E & A & B & C); [rewrite E2, Esc; reflexivity | lia | exact Hfr|].
+    exists w2. rewrite E, B, E2, Esc. cbn. auto.
+  - rewrite Esc in E4. cbn in E4. subst ff. discriminate.
+Qed.
+
 (* send_dep_req_recv_dep_res *)
 Theorem srr_safe fuel p rwt timeout w out w' : InS (w_t w) -> 0 <= p <= 3 -> 1 <= rwt ->
   srr fuel ic tc p d rwt timeout w = (out, w') ->
@@ -290,6 +382,14 @@ Proof.
   intros Hin Hhd Hrwt Hto Hf Hn. unfold srr.
   destruct (srr_loop_nofault fuel p rwt (w_now w + timeout) w Hin Hhd) as (w' & E & A & B & C); [lia | exact Hf|].
   rewrite E. replace (fmt r =? F_NAK) with false by lia. exists w'. auto.
+Qed.
+Theorem srr_sparse fuel p timeout w : w_t w = t0 \/ w_t w = awake t0 -> 0 <= p <= 3 -> Sparse (w_script w) ->
+  2 <= timeout -> (2 <= fuel)%nat -> (fmt r = F_INF \/ fmt r = F_MORE \/ fmt r = F_ACK) ->
+  exists w', srr fuel ic tc p d 1 timeout w = (Ok r, w') /\ w_t w' = t1 /\ Sparse (w_script w').
+Proof.
+  intros Hw0 Hp Hsp Hto Hfuel Hfr. unfold srr.
+  destruct (srr_loop_sparse fuel p (w_now w + timeout) w Hw0 Hp Hsp ltac:(lia) Hfuel Hfr) as (w' & E & A & B).
+  rewrite E. replace (fmt r =? F_NAK) with false by (unfold F_INF, F_MORE, F_ACK, F_NAK in *; lia). exists w'. auto.
 Qed.
 End Step.
 End Srr.
